@@ -48,7 +48,7 @@ func init() {
 	}})
 }
 
-func (p *c14) NumCases(tier string, seed int64) int { return tierN(tier, 360, 9000) }
+func (p *c14) NumCases(tier string, seed int64) int { return tierN(tier, 1080, 72000) }
 
 // ---------------------------------------------------------------- helpers on statement trees
 
